@@ -147,7 +147,8 @@ def insertEmptyParagraph (d : Doc) (index : Option Nat) : Doc :=
   | none =>
     -- `self.0.children().count()`: the number of child NODES is used as the insertion position
     let pos := nodeCount
-    let kids := insertAt d.kids pos (sep ++ [para])
+    -- `terminate_last_line(&self.0)`: the separator must not double as a line terminator
+    let kids := insertAt (terminateLastLine d.kids) pos (sep ++ [para])
     { kids := kids, handles := shiftIns d.handles pos (1 + sep.length) ++ [some (pos + sep.length)] }
 
 def addParagraph (d : Doc) : Doc := insertEmptyParagraph d none
